@@ -270,7 +270,9 @@ def run(ctx):
             continue
         if name in LAZY and LAZY[name][0] == file_:
             allowed = LAZY[name][1]
-            extra = sorted(w for w in writers if w not in allowed)
+            from ..rules import whomay
+            extra = sorted(w for w in writers if not any(
+                whomay.allowed(P, g, lambda h: h.name in allowed) for g in P.by_name.get(w, []) if P.rel(g.file) == file_))
             ctx.ob("R7.global", key, file_,
                    "lazy-initialised `%s` is written only by its initialiser(s)" % name, not extra,
                    "writers: %s" % sorted(writers))
